@@ -66,7 +66,7 @@ class C05Machine(Machine):
         "reject_multi", "reject_nomerge", "reject_invalid", "merge_case_insensitive",
         "merge_adds_uri_synonym_only", "merge_keeps_pattern", "merge_into_start_built", "same_object_twice",
         "empty_prefix_token", "empty_uri_prefix_token", "start_from_chain", "start_from_subconverter",
-        "retry_rejected_now_accepted", "retry_rejected_again_rejected", "other_side_of_rejected_appended",
+        "retry_rejected_now_accepted", "retry_rejected_again_rejected", "other_side_of_rejected_appended", "other_side_of_rejected_merged_elsewhere",
         "start_from_reconciliation", "submission_with_own_case_variants", "large_converter",
     ]
 
@@ -137,6 +137,7 @@ class C05Machine(Machine):
                 "merge": True if rng.random() < 0.75 else prev["merge"],
             }
         rec = self._gen_record(rng, rel, kind)
+        force_merge = rec.pop("_force_merge", False)
         op = {
             "op": kind,
             "relation": rel,
@@ -144,6 +145,9 @@ class C05Machine(Machine):
             "case_sensitive": not (rng.random() < cfg["p_ci"]),
             "merge": rng.random() < cfg["p_merge"],
         }
+        if force_merge:
+            op["merge"] = True
+            op["case_sensitive"] = True
         if rel == "same_object" and kind == "add_record" and self.last_record_dump is not None:
             op["same_object"] = True
             op["record"] = copy.deepcopy(self.last_record_dump)
@@ -266,6 +270,15 @@ class C05Machine(Machine):
             rec["uri_prefix"] = rng.choice(free_u) if free_u and rec["prefix"] not in free_c else take(fresh_u, cfg["uri_pool"])
             if rec["prefix"] in used_c and rec["uri_prefix"] in used_u:
                 rec["prefix"] = take(fresh_c, cfg["curie_pool"])
+            if len(recs) >= 2 and rng.random() < 0.5:
+                # variant: the free token is MERGED into some existing record instead of arriving
+                # with a new one (no append happens between the rejection and the retry)
+                r2 = rng.choice(recs)
+                if free_u and rec["uri_prefix"] in free_u:
+                    rec["prefix"] = r2.prefix
+                elif free_c and rec["prefix"] in free_c:
+                    rec["uri_prefix"] = r2.uri_prefix
+                rec["_force_merge"] = True
         elif rel == "syn_vs_canon":
             # the submission's *synonym* hits an existing canonical value (or synonym)
             rec["prefix"] = take(fresh_c, cfg["curie_pool"])
@@ -501,6 +514,8 @@ class C05Machine(Machine):
                 self.probe("retry_rejected_now_accepted")
             if op.get("relation") == "other_side_of_rejected" and outcome == "append":
                 self.probe("other_side_of_rejected_appended")
+            if op.get("relation") == "other_side_of_rejected" and outcome == "merge_new":
+                self.probe("other_side_of_rejected_merged_elsewhere")
             folded = [t.casefold() for t in sorted(mrec.all_prefixes())] + ["|"] + [t.casefold() for t in sorted(mrec.all_uri_prefixes())]
             if len(set(folded)) < len(folded):
                 self.probe("submission_with_own_case_variants")
